@@ -121,7 +121,7 @@ CONFIG = {
         'profiles': [('genesis', 150, 4000)],
         'rules': [(r'G-END', 'GV', None), (r'G-END', 'GI', None), (r'G-END', 'S', None), (r'EXPORT', 'XR', None), (r'EXPORT', 'X', None)],
         'monitors': [M.mon_c17],
-        'level_text': 'Theorems: validation accepts only genesis states whose five keyed lists have pairwise distinct store keys; for every validated and initialised genesis the export has the same roles and flags, the documented defaults for absent counters and a permutation of each list; for every state reachable from an initialised genesis, import of its export reproduces the store up to the pending-owner slot (store well-formedness and exportability are proved invariants). The full round-trip statement is refuted for the code as it stands (no genesis field for the pending owner: recorded known finding), with the witness in the property file. Tied to the Go code by differential execution of Validate / InitGenesis / ExportGenesis on generated genesis states with colliding keys in each list, and by evaluating export -> import on the real store (raw key/value comparison) after histories.',
+        'level_text': 'Theorems: validation accepts only genesis states whose five keyed lists have pairwise distinct store keys; for every validated and initialised genesis the export has the same roles and flags, the documented defaults for absent counters and a permutation of each list; for every state reachable from an initialised genesis, import of its export reproduces the store up to the pending-owner slot (store well-formedness and exportability are proved invariants). The full round-trip statement is refuted for the code as it stands (no genesis field for the pending owner: recorded known finding), with the witness in the property file. Tied to the Go code by differential execution of Validate / InitGenesis / ExportGenesis on generated genesis states with colliding keys in each list, and by evaluating export -> import on the real store (raw key/value comparison) after histories. InitGenesis and ExportGenesis are also tied by TRANSLATION: tools/goextract translates both functions of x/cctp/genesis.go on every run (loops over the genesis lists, pointer fields, the threshold panic) and C17_go_genesis_functions_are_the_model proves that the translated InitGenesis run on an empty store leaves exactly the model store and the translated ExportGenesis returns exactly the model export on every chain whose pause flags are set (GenesisState.Validate and the keeper storage methods are tied by differential execution only).',
         'assumptions': ['token-pair keys are Keccak-256 digests: distinct (domain, token) pairs share a key only on a hash collision, which validation (comparing the derived keys) would reject anyway'],
     },
     'C19': {
@@ -140,9 +140,9 @@ CONFIG = {
         'assumptions': ['partial: panic sites inside dependencies that were not found by reading can only be found by the sampling; text outside ASCII + U+017F + U+212A is exercised on the implementation only (the model answers Unmodelled)'],
     },
     'C18': {
-        'profiles': [('dropped', 10, 100), ('determinism', 12, 200)],
+        'profiles': [('dropped', 10, 100), ('determinism', 12, 200), ('replace', 10, 200)],
         'rules': [(r'TX:.*', 'R', None), (r'TX:.*', 'E', None), (r'TX:.*', 'S', None), (r'TX:.*', 'D', None), (r'Q:.*', 'QR', None), (r'EXPORT', 'X', None)],
-        'monitors': [M.mon_c18],
+        'monitors': [M.mon_request_untouched, M.mon_c18],
         'level_text': 'Partial by nature. Proved: the model\'s transition is a function of (environment, chain, dependency plan, transaction) with no other input; a system of several instances under ANY interleaving leaves each instance exactly where its own history alone would (induction over the schedule); the store is canonical (insertions at distinct keys commute); and the Go source as it is now has no import of time / rand / os / sync / unsafe / runtime, no go or select statement, no range over a map and no write to a package-level variable in the state machine (scan regenerated from the source on every run). Not provable in any Gallina model - map iteration order, scheduling, data races - is covered as support by replaying every script on a fresh instance, after an unrelated history in the same process, and concurrently on 8 goroutines (thorough: under the race detector), comparing responses, events, dependency requests, typed state and the IAVL root hash with the first execution and with the model.',
         'assumptions': ['runtime behaviour (map order, scheduler, races) is sampled by replays, not proved'],
     },
